@@ -10,6 +10,16 @@ package c16
 // about schedules - the historical list of a span ending at a live tick contains exactly
 // that live query: BatchQueries(tick - every + phase, tick) returns one query whose text is
 // the text that went to InfluxDB.
+//
+// Slow answers: the fake InfluxDB can hold the answer to one generated query (StallAt) for a
+// generated time. While QueryNode.doQuery waits nobody takes ticks: the ones that pass are
+// held (a bounded number) or dropped. Whatever happens to them, a query issued well after the
+// slow answer came back is again issued on a tick of its own time: its tick is not older than
+// the answer to the query three before it (lower causal bound, see liveAssumptions). Unit
+// Live mixes in short stalls (a few ticks dropped, every other assertion must still hold);
+// unit LiveStall (same case type, same run function) holds one answer for 2.5-3 s - longer
+// than the slack of the causal bounds - so that a tick time that is counted, cached or
+// otherwise detached from the clock shows as a time range that lags behind the schedule.
 
 import (
 	"fmt"
@@ -26,22 +36,38 @@ type LiveCase struct {
 	Case
 	NTicks int     `json:"nticks"`
 	Phases []int64 `json:"phases"` // per tick: where in [0, every) before the tick the historical span starts (align only; else 0)
+	// the fake InfluxDB holds the answer to live query number StallAt (0-based) for StallNs; 0: no stall
+	StallAt int   `json:"stall_at,omitempty"`
+	StallNs int64 `json:"stall_ns,omitempty"`
 }
 
-const liveRule = "rapid: live StartBatching against a fake InfluxDB, every 10-30 ms (with/without align), period/offset/groupBy/alignGroup/fill/WHERE tree without time predicates, 4-8 ticks, " +
+const liveRule = "rapid: live StartBatching against a fake InfluxDB, every 10-30 ms (with/without align), period/offset/groupBy/alignGroup/fill/WHERE tree without time predicates, 4-8 ticks, one case in three with one answer held for 2-8 ticks, " +
 	"each compared with BatchQueries over a span ending at that tick with a generated phase; non-trivial = align() or alignGroup() with a group-by-time dimension or a top-level OR; distinct by case hash"
+
+const liveStallRule = "rapid: the Live case family (every 10-30 ms, align() in 3 of 4 cases) with the answer to one of the first three live queries held by the fake InfluxDB for 2.5-3 s (100-300 ticks pass unread), " +
+	"then 3-5 more queries; all Live assertions plus the lower causal bound on every tick; non-trivial = align() (the ticker whose tick times are computed by kapacitor, not by the Go ticker); distinct by case hash"
+
+// pendingTicks: how many ticks can be waiting for the query node while it is busy.
+const pendingTicks = 2
 
 var liveAssumptions = []string{
 	"live ticks are wall-clock instants: only relations between a query and its own tick and causal bounds (tick not before StartBatching, not after the query's arrival, one 'every' of slack plus 2 s) are asserted; the order of ticks is not asserted (not robust on an oversubscribed machine: the Go ticker can deliver pending values out of order, align() can round two late ticks onto one boundary) - inversions and repeats are labels",
 	"a live task whose first tick is T was started in [T-every, T); the historical span used for the comparison starts at T-every+phase with phase in [0, every) (0 without align)",
 	"no user time predicates in the live unit (the tick is recovered from the query's own time range)",
+	"lower causal bound (from the code, batch.go): QueryNode.doQuery handles one tick at a time (take a tick, send the query, wait for the answer); of the ticks that pass meanwhile at most two are kept - one value in the Go ticker's channel and, under align(), one in the goroutine that rounds it - the rest is dropped by time.Ticker; hence the tick of live query i happened after the answer to query i-3 was handed back: stop+offset >= returned(i-3) - every (align() rounds to the nearest boundary) - 2 s (the slack of the other causal bounds). The fake InfluxDB holds one generated answer (slow InfluxDB) to open a gap the bound can see; a query further behind was not issued on the tick it claims - its range is not [tick-offset-period, tick-offset) for the tick that triggered it",
 }
 
-func genLive(rec *kit.Rec) func(t *rapid.T) LiveCase {
+// genLive: longStall false - unit Live (one case in three has a short stall of 2-8 ticks);
+// true - unit LiveStall (every case has a stall of 2.5-3 s).
+func genLive(rec *kit.Rec, longStall bool) func(t *rapid.T) LiveCase {
 	return func(t *rapid.T) LiveCase {
 		var c LiveCase
 		c.Every = Dur{int64(10 + wpick(t, "everyMs", 3, 1, 1, 1, 1)*5), "ms"}
-		c.Align = rapid.Bool().Draw(t, "align")
+		if longStall {
+			c.Align = wpick(t, "alignW", 1, 3) == 1
+		} else {
+			c.Align = rapid.Bool().Draw(t, "align")
+		}
 		c.Period = rapid.SampledFrom([]Dur{{10, "ms"}, {35, "ms"}, {1, "s"}, {3, "m"}, {1, "h"}, {0, "ms"}, {7, "ms"}}).Draw(t, "period")
 		c.Offset = rapid.SampledFrom([]Dur{{0, "s"}, {0, "s"}, {3, "ms"}, {1, "s"}, {1, "h"}, {24, "h"}, {10, "ms"}}).Draw(t, "offset")
 		genStatement(t, rec, &c.Case)
@@ -54,6 +80,19 @@ func genLive(rec *kit.Rec) func(t *rapid.T) LiveCase {
 		genSources(t, &c.Case, true)
 		genWhere(t, rec, &c.Case, nil)
 		c.NTicks = 4 + wpick(t, "nticks", 1, 1, 1, 1, 1)
+		// ---- one slow answer, pendingTicks queries the lower bound says nothing sharp about, then 1-3 on which it bites
+		switch {
+		case longStall:
+			c.StallAt = wpick(t, "stallAt", 1, 1, 1)
+			c.StallNs = rapid.SampledFrom([]int64{2500e6, 3000e6}).Draw(t, "stallNs")
+			c.NTicks = c.StallAt + pendingTicks + 2 + wpick(t, "after", 1, 1, 1)
+		case wpick(t, "stall", 2, 1) == 1:
+			c.StallAt = wpick(t, "stallAt", 1, 1, 1)
+			c.StallNs = rapid.SampledFrom([]int64{2, 3, 5, 8}).Draw(t, "stallTicks") * c.Every.Ns()
+			if n := c.StallAt + pendingTicks + 2; c.NTicks < n {
+				c.NTicks = n
+			}
+		}
 		for i := 0; i < c.NTicks; i++ {
 			var ph int64
 			if c.Align {
@@ -83,7 +122,7 @@ func genLive(rec *kit.Rec) func(t *rapid.T) LiveCase {
 	}
 }
 
-const liveHangBound = 300 * time.Second // >= 1000 x the 0.04-0.25 s a case needs
+const liveHangBound = 300 * time.Second // >= 1000 x the 0.04-0.25 s a case needs (plus the time the fake itself holds an answer)
 
 func runLive(lc LiveCase, cc *kit.Case) {
 	c := lc.Case
@@ -115,12 +154,28 @@ func runLive(lc LiveCase, cc *kit.Case) {
 	if hasTopLevelOr(c.Where) {
 		cc.Label("where:top-level-or")
 	}
-	if c.Align || (td != nil && c.AlignGroup) || hasTopLevelOr(c.Where) {
+	long := lc.StallNs >= int64(2*time.Second)
+	switch {
+	case lc.StallNs == 0:
+		cc.Label("live:no-stall")
+	case long:
+		cc.Label("live:stall>=2s")
+	default:
+		cc.Label(fmt.Sprintf("live:stall=%d-ticks", lc.StallNs/every))
+	}
+	if lc.StallNs > 0 && c.Align {
+		cc.Label("live:align+stall")
+	}
+	if long {
+		if c.Align {
+			cc.NonTrivial()
+		}
+	} else if c.Align || (td != nil && c.AlignGroup) || hasTopLevelOr(c.Where) {
 		cc.NonTrivial()
 	}
 
 	// ---- live
-	fake := &fakeClient{wake: make(chan struct{}, 1)}
+	fake := &fakeClient{wake: make(chan struct{}, 1), stallAt: lc.StallAt, stall: time.Duration(lc.StallNs)}
 	env, err := kit.NewEnv(kit.EnvOpts{Influx: fakeInflux{fake}})
 	if err != nil {
 		cc.Fail("harness/env", "env: %v", err)
@@ -143,7 +198,7 @@ func runLive(lc LiveCase, cc *kit.Case) {
 		cc.Fail("dbrp/declared-rejected", "declared %v, query %q: StartBatching failed: %v", c.Declared, userQ, err)
 		return
 	}
-	deadline := time.NewTimer(liveHangBound)
+	deadline := time.NewTimer(liveHangBound + time.Duration(lc.StallNs))
 	defer deadline.Stop()
 	for fake.count() < lc.NTicks {
 		select {
@@ -156,7 +211,7 @@ func runLive(lc LiveCase, cc *kit.Case) {
 	if err := env.TM.StopTask(id); err != nil {
 		cc.Label("live:stop-error")
 	}
-	obs, at := fake.snapshot()
+	obs, at, ret := fake.snapshot()
 
 	// ---- the historical path: a second task of the same definition, never started
 	task2, err := env.TM.NewTask("h"+id, script, kapacitor.BatchTask, c.declared(), 0, nil)
@@ -177,6 +232,7 @@ func runLive(lc LiveCase, cc *kit.Case) {
 	}
 	slack := every + int64(2*time.Second)
 	var prevTick int64
+	staleAfterStall := 0 // queries after the slow answer whose tick passed before it came back
 	for i, s := range obs {
 		em, err := parseSelect(s)
 		if err != nil {
@@ -218,6 +274,17 @@ func runLive(lc LiveCase, cc *kit.Case) {
 			}
 			cc.Fail(sig, "%s\n%s: %s\nbatching started at %s, the query arrived at %s, stop + offset = %s", script, what, s, iso(t0.UnixNano()), iso(at[i].UnixNano()), iso(tick))
 			return
+		}
+		// lower causal bound: at most pendingTicks ticks wait for the node while it is busy, so
+		// this tick happened after the answer to query i-pendingTicks-1 was handed back
+		if j := i - pendingTicks - 1; j >= 0 && !ret[j].IsZero() && tick < ret[j].UnixNano()-slack {
+			cc.Fail("live/tick-lags-behind-schedule", "%s\n%s: %s\nthe answer to live query %d was handed back at %s (the fake InfluxDB holds the answer to query %d for %s); this query arrived at %s, %d queries later, "+
+				"and is labelled with a tick %s before that answer: at most %d ticks can have been waiting, so it was not issued on the tick whose range it asks for (its range lags behind the schedule)",
+				script, what, s, j, iso(ret[j].UnixNano()), lc.StallAt, time.Duration(lc.StallNs), iso(at[i].UnixNano()), i-j, time.Duration(ret[j].UnixNano()-tick), pendingTicks)
+			return
+		}
+		if lc.StallNs > 0 && i > lc.StallAt && lc.StallAt >= 0 && !ret[lc.StallAt].IsZero() && tick < ret[lc.StallAt].UnixNano()-every {
+			staleAfterStall++
 		}
 		if i > 0 && tick == prevTick {
 			cc.Label("live:repeated-tick")
@@ -261,12 +328,25 @@ func runLive(lc LiveCase, cc *kit.Case) {
 			script, iso(tick), s, iso(hs), lc.Phases[i], iso(hs), iso(tick), len(hstrs), hstrs)
 		return
 	}
+	if long {
+		cc.Label(fmt.Sprintf("live:ticks-kept-during-long-stall=%d", staleAfterStall))
+	}
 	x.strictVerdict(cc)
 }
 
 func TestLive(t *testing.T) {
 	r := kit.NewRec("C16", "Live", liveRule, liveAssumptions...)
-	kit.Check(t, r, genLive(r), runLive)
+	kit.Check(t, r, genLive(r, false), runLive)
+}
+
+func TestLiveStall(t *testing.T) {
+	r := kit.NewRec("C16", "LiveStall", liveStallRule, liveAssumptions...)
+	kit.Check(t, r, genLive(r, true), runLive)
+}
+
+func TestReplayLiveStall(t *testing.T) {
+	r := kit.NewRec("C16", "LiveStall", liveStallRule, liveAssumptions...)
+	kit.Replay(t, r, runLive)
 }
 
 func TestReplayLive(t *testing.T) {
